@@ -23,7 +23,7 @@ EXTRA_IMPORTS = 'From PJ Require Import Model.Bind Model.Validators Corr.DispCom
 RULE = ('signatures of 1..2 (quick) / 1..3 (thorough) positional-or-keyword / keyword-only parameters with and without defaults and an '
         'optional context parameter (the context object drawn from truthy and falsy values); JSON-Schema side: per-parameter fragments {type, enum, minimum/maximum, array items, nested object '
         'with required and additionalProperties false, no constraint} under a top-level object schema with required subsets and '
-        'additionalProperties on/off x argument values from a per-type alphabet of conforming / non-conforming values x positional / named '
+        'additionalProperties on/off (a function served alone, sharing one validator with a sibling served first, as a view method, or decorated again with an all-admitting schema after its registration) x argument values from a per-type alphabet of conforming / non-conforming values x positional / named '
         'passing (every case also judged by the jsonschema package itself on independently bound arguments); pydantic side: annotations '
         '{int, str, float, bool, Optional[int], List[int], Dict[str,int], a model class, an enum, an int with a validator function that raises ValueError} x conforming / coercible / non-conforming '
         'values x coercion on/off, per-argument verdicts from pydantic.TypeAdapter independently of pjrpc. Everything is dispatched '
@@ -155,6 +155,10 @@ def generate(seed, tier):
             c['shared'] = True
         elif r < 0.4 and not ctx:
             c['view'] = True          # a method of a class-based view; the predicate (if any) would also select `self`
+        elif r < 0.55:
+            # after registration the same function is decorated AGAIN, with a schema that admits everything, and exposed a second
+            # time elsewhere; the first registration keeps the validator arguments it was made with
+            c['redeco'] = True
         cases.append(c)
     n_typed = 1800 if tier == 'quick' else 16000
     for _ in range(n_typed):
@@ -251,7 +255,7 @@ def ctx_value(case):
     return CTX_VALUES[case.get('ctxv', 0)]
 
 
-def dispatch(case, f, is_async, sibling=None):
+def dispatch(case, f, is_async, sibling=None, after_registration=None):
     d = (AsyncDispatcher if is_async else Dispatcher)()
     if case.get('view'):
         V = type('V', (ViewMixin,), {'f': f})
@@ -260,6 +264,8 @@ def dispatch(case, f, is_async, sibling=None):
         d.add(f, context=case['ctx'])
     else:
         d.add(f)
+    if after_registration is not None:
+        after_registration()
     if sibling is not None:
         d.add(sibling, name='g')
         t0 = json.dumps({'jsonrpc': '2.0', 'id': 0, 'method': 'g', 'params': {'gx': 's'}})
@@ -308,8 +314,14 @@ def observe(case):
             obs = dispatch(case, f, case['async'], sibling=g)
         else:
             v = v_js.JsonSchemaValidator(exclude_param=predicate(case))
-            f = v.validate(make_function(case, case['async'], log), schema=case['schema'])
-            obs = dispatch(case, f, case['async'])
+            fn = make_function(case, case['async'], log)
+            f = v.validate(fn, schema=case['schema'])
+            post = None
+            if case.get('redeco'):
+                def post():
+                    v.validate(fn, schema={'type': 'object'})
+                    (AsyncDispatcher if case['async'] else Dispatcher)().add(fn, name='loose')
+            obs = dispatch(case, f, case['async'], after_registration=post)
         bound = independent_bind(case)
         if bound is None:
             js = None
